@@ -12,7 +12,9 @@ theorems below are permutation-invariance statements, one per item of the proper
  5. `reexported_by` is sorted by id by the visitor               (`reexportedBy_sorted`)
  6. the packages phase only ADDS to the re-export map            (`reexport_map_add_commutes`, `RmEquiv` consumers)
  7. file discovery and AST selection                             (`discovery_enumeration_order`)
- 8. the two remaining order-dependences (`NoTies` exclusions), with kernel-checked witnesses
+ 8. the former scope exclusions, now theorems: `_find_alias` iterates `sorted(qnames)`
+    (`findAlias_perm`), the inferred return types come in SOURCE order (`InferTie` is no exclusion any
+    more), the re-exported elements are sorted by `(name, id)` (`reexport_elements_order`)
  9. non-vacuity examples.
 
 Helper lemmas are in `Proofs/Order.lean`.
@@ -315,58 +317,116 @@ theorem discoverFrom_enumeration_order (root : PathParts) (isTestRun : Bool) {fi
         d.walkable ~ d'.walkable ∧ d.packages ~ d'.packages) :=
   p08_discoverFrom_perm root isTestRun h
 
-/-! ### 8. the remaining order-dependences (scope exclusions `NoTies`) -/
+/-! ### 8. the former scope exclusions are theorems now
 
-/-- (i) `_find_alias`: the name is defined in several modules (`aliases[name]` has ≥ 2 qualified
-    names) and more than one of them has a module path that contains the current module's full name
-    as a substring.  The loop `break`s at the first hit in SET order. -/
+After the repairs (`for alias_qname in sorted(qnames)`; the inferred types collected in an
+insertion-ordered dict; `elements.sort(key=lambda x: (x.name, x.id))`) no order of a Python `set` is
+left that reaches the output.  The situations that used to be excluded (`FindAliasTie`,
+`FindAliasNoHit`, `InferTie`) are kept as definitions: they describe inputs on which the result is now
+DETERMINED by a rule (first hit in sorted order / last name in sorted order / source order), and the
+examples below are positive. -/
+
+/-- the alias table with every candidate list permuted (`dict[str, set[str]]`: same keys, the
+    iteration order of each value set is free) -/
+abbrev AliasesPerm := p08_AliasesPerm
+
+/-- The loop `for alias_qname in sorted(qnames)`: whatever the loop body and the start value, the
+    result is the same for every iteration order of the candidate set. -/
+theorem findAlias_loop_perm {β : Type} (step : β → String → β) (init : β) {qs qs' : List String}
+    (h : qs ~ qs') : (sortStrings qs).foldl step init = (sortStrings qs').foldl step init :=
+  p08_sorted_foldl_perm step init h
+
+/-- `_find_alias` gives the same answer for every iteration order of `aliases[typeName]` — with NO
+    side condition.  (A single candidate is returned directly; a permutation of a singleton is the
+    same singleton and permutations keep the length, so both sides take the same branch.) -/
+theorem findAlias_perm (env env' : AEnv) (s : VSt) (typeName : String) {qs qs' : List String}
+    (h1 : assocGet? env.aliases typeName = some qs) (h2 : assocGet? env'.aliases typeName = some qs')
+    (h : qs ~ qs') :
+    findAlias env s typeName = findAlias env' s typeName :=
+  p08_findAlias_perm env env' s typeName h1 h2 h
+
+/-- … and for two environments whose alias tables differ by the iteration order of every candidate
+    set, for every looked-up name (`findAlias` reads nothing else of the environment). -/
+theorem findAlias_perm_all (env env' : AEnv) (s : VSt) (typeName : String)
+    (h : AliasesPerm env.aliases env'.aliases) :
+    findAlias env s typeName = findAlias env' s typeName :=
+  p08_findAlias_perm_all env env' s typeName h
+
+/-- (i) FORMERLY EXCLUDED, now decided by the sorted order: the name is defined in several modules
+    (`aliases[name]` has ≥ 2 qualified names) and more than one of them has a module path that
+    contains the current module's full name as a substring.  The loop `break`s at the first hit in
+    SORTED order. -/
 def FindAliasTie (env : AEnv) (s : VSt) (typeName : String) : Prop :=
   ∃ qs, assocGet? env.aliases typeName = some qs ∧
     2 ≤ (qs.filter fun aq => pyIn s.fileFullname (joinWith "." (dropLast' (splitDot aq)))).length
 
-/-- (i') … or none of them does and they do not all end in the same name: the loop then leaves the
-    LAST candidate's name (with an empty qualified name). -/
+/-- (i') FORMERLY EXCLUDED, now decided by the sorted order: none of the candidates matches and
+    they do not all end in the same name: the loop leaves the name of the LAST candidate in SORTED
+    order (with the qualified name found before the loop). -/
 def FindAliasNoHit (env : AEnv) (s : VSt) (typeName : String) : Prop :=
   ∃ qs, assocGet? env.aliases typeName = some qs ∧ 2 ≤ qs.length ∧
     (qs.all fun aq => !pyIn s.fileFullname (joinWith "." (dropLast' (splitDot aq)))) ∧
     ∃ a ∈ qs, ∃ b ∈ qs, lastD "" (splitDot a) ≠ lastD "" (splitDot b)
 
-/-- (ii) `_infer_type_from_return_stmts` sorts the SET of inferred types by a key (the name of a
-    named type, the length of a tuple) that does not separate all types; the sort is stable, so
-    types with equal keys keep their set order, which becomes the member order of the result's
-    union type in the API JSON. -/
+/-- (ii) NO LONGER AN EXCLUSION — order = source order.  `_infer_type_from_return_stmts` sorts the
+    inferred types by a key (the name of a named type, the length of a tuple) that does not separate
+    all types; the sort is stable, so types with equal keys keep the order in which they were
+    collected.  The Python code now collects them in an insertion-ordered dict, i.e. in the order of
+    their first occurrence in the SOURCE TEXT — exactly what the model's `inferFromReturns` computes
+    (first-occurrence order, then a stable sort by `inferSortKey`).  The member order of the result
+    is therefore a function of the source, and no `set` order is involved.  `InferTie` only describes
+    when the stable sort leaves something to the source order. -/
 def InferTie (types : List AType) : Prop :=
   ∃ a ∈ types, ∃ b ∈ types, a.pyEq b = false ∧ inferSortKey a = inferSortKey b
 
-/-- the scope of C08: neither tie occurs (for every alias lookup and every inferred return set) -/
-def NoTies (env : AEnv) (s : VSt) (typeNames : List String) (inferred : List (List AType)) : Prop :=
-  (∀ n ∈ typeNames, ¬ FindAliasTie env s n ∧ ¬ FindAliasNoHit env s n) ∧ (∀ ts ∈ inferred, ¬ InferTie ts)
+/-- The scope condition of C08 on the model side is EMPTY: no exclusion is left.  (Formerly: no
+    `FindAliasTie`/`FindAliasNoHit` for any alias lookup and no `InferTie` for any inferred return
+    set.  `findAlias_perm` needs no hypothesis any more, and the order of the inferred types is the
+    source order, which is part of the input.)  Kept, with its old signature, so that statements
+    mentioning the scope stay well-formed. -/
+def NoTies (_env : AEnv) (_s : VSt) (_typeNames : List String) (_inferred : List (List AType)) : Prop := True
 
-/-- outside the tie situations (i), (i') `_find_alias` gives the same answer for every iteration order
-    of `aliases[typeName]` -/
+theorem noTies_trivial (env : AEnv) (s : VSt) (typeNames : List String) (inferred : List (List AType)) :
+    NoTies env s typeNames inferred := trivial
+
+/-- the old statement, kept: its two tie hypotheses are not needed any more (see `findAlias_perm`) -/
 theorem findAlias_noTies (env env' : AEnv) (s : VSt) (typeName : String) {qs qs' : List String}
     (h1 : assocGet? env.aliases typeName = some qs) (h2 : assocGet? env'.aliases typeName = some qs')
-    (h : qs ~ qs') (hTie : ¬ FindAliasTie env s typeName) (hNoHit : ¬ FindAliasNoHit env s typeName) :
-    findAlias env s typeName = findAlias env' s typeName := by
-  refine p08_findAlias_perm env env' s typeName h1 h2 h ?_ ?_
-  · by_contra hc
-    exact hTie ⟨qs, h1, not_lt.1 hc⟩
-  · intro hlen hall a ha b hb
-    by_contra hne
-    refine hNoHit ⟨qs, h1, hlen, ?_, a, ha, b, hb, hne⟩
-    rw [List.all_eq_true]
-    intro x hx
-    have := hall x hx
-    unfold p08_aliasHit at this
-    rw [this]; rfl
+    (h : qs ~ qs') (_hTie : ¬ FindAliasTie env s typeName) (_hNoHit : ¬ FindAliasNoHit env s typeName) :
+    findAlias env s typeName = findAlias env' s typeName :=
+  findAlias_perm env env' s typeName h1 h2 h
 
-/-- outside the tie situation (ii) the sort of the inferred types is canonical: for a set of types
-    (pairwise different) without two members of equal sort key, every iteration order gives the same list -/
+/-- The sort step alone, as a statement about an arbitrary enumeration of a SET of types (pairwise
+    different) without two members of equal sort key: every enumeration gives the same list.  (In the
+    model and in the repaired Python code the input of the sort is not a set but the source-ordered
+    list, so this is no longer needed for determinism; it says when the result does not even depend on
+    the order of the `return` statements.) -/
 theorem inferSort_noTies {types types' : List AType}
     (hset : types.Pairwise (fun a b => a.pyEq b = false)) (hno : ¬ InferTie types) (h : types ~ types') :
     sortBy (fun a b => strLe (inferSortKey a) (inferSortKey b)) types
       = sortBy (fun a b => strLe (inferSortKey a) (inferSortKey b)) types' :=
   p08_infer_sort_perm hset (fun a ha b hb hp e => hno ⟨a, ha, b, hb, hp, e⟩) h
+
+/-- The re-exported elements of one module are sorted by `(name, id)`
+    (`elements.sort(key=lambda x: (x.name, x.id))`, `nodeLe`): as soon as `(name, id)` identifies an
+    element, the sorted list is the same for every order in which the elements were queued. -/
+theorem reexport_elements_order {l l' : List Node} (h : l ~ l')
+    (hinj : ∀ a ∈ l, ∀ b ∈ l, a.name = b.name → a.id = b.id → a = b) :
+    sortBy nodeLe l = sortBy nodeLe l' :=
+  p08_sortBy_nodeLe_perm h hinj
+
+/-- without the hypothesis: the sequence of `(name, id)` pairs of the sorted list is determined -/
+theorem reexport_elements_order_key {l l' : List Node} (h : l ~ l') :
+    (sortBy nodeLe l).map (fun n => (n.name, n.id)) = (sortBy nodeLe l').map (fun n => (n.name, n.id)) :=
+  p08_sortBy_nodeLe_perm_key h
+
+/-- consequence for `create_reexport_module_strings`: the whole computation (stubs, final state,
+    error) for a re-export module is the same for both orders of its element list -/
+theorem reexport_modules_order (env : Env) (moduleId : String) {l l' : List Node}
+    (rest : List (String × List Node)) (h : l ~ l')
+    (hinj : ∀ a ∈ l, ∀ b ∈ l, a.name = b.name → a.id = b.id → a = b) :
+    createReexportModules env ((moduleId, l) :: rest) = createReexportModules env ((moduleId, l') :: rest) :=
+  p08_createReexportModules_perm env moduleId rest h hinj
 
 def exVSt : VSt :=
   { doc := { root := { name := "pkg" }, style := .numpy },
@@ -374,20 +434,36 @@ def exVSt : VSt :=
 
 def exEnv (qs : List String) : AEnv := { opts := {}, aliases := [("T", qs)], infoBases := [] }
 
-/-- (i) two iteration orders of `aliases["T"]`, two different answers -/
+/-- (i) two iteration orders of `aliases["T"]`, both candidates match: ONE answer, the first in sorted order -/
 example :
     findAlias (exEnv ["pkg.mod.a.T", "pkg.mod.b.T"]) exVSt "T" = .ok ("T", "pkg.mod.a.T") ∧
-    findAlias (exEnv ["pkg.mod.b.T", "pkg.mod.a.T"]) exVSt "T" = .ok ("T", "pkg.mod.b.T") := by
+    findAlias (exEnv ["pkg.mod.b.T", "pkg.mod.a.T"]) exVSt "T" = .ok ("T", "pkg.mod.a.T") := by
   decide +kernel
 
-example : FindAliasTie (exEnv ["pkg.mod.a.T", "pkg.mod.b.T"]) exVSt "T" :=
-  ⟨_, rfl, by decide +kernel⟩
+/-- the situation is the formerly excluded one, in both orders -/
+example : FindAliasTie (exEnv ["pkg.mod.a.T", "pkg.mod.b.T"]) exVSt "T" ∧
+    FindAliasTie (exEnv ["pkg.mod.b.T", "pkg.mod.a.T"]) exVSt "T" :=
+  ⟨⟨_, rfl, by decide +kernel⟩, ⟨_, rfl, by decide +kernel⟩⟩
 
-/-- (i') no candidate matches: the last one in set order names the result -/
+/-- … and the theorem applies to it -/
+example : findAlias (exEnv ["pkg.mod.a.T", "pkg.mod.b.T"]) exVSt "T" = findAlias (exEnv ["pkg.mod.b.T", "pkg.mod.a.T"]) exVSt "T" :=
+  findAlias_perm _ _ exVSt "T" rfl rfl (List.Perm.swap _ _ _)
+
+/-- (i') no candidate matches: ONE answer, the last one in sorted order names the result -/
 example :
     findAlias (exEnv ["x.a.T", "y.b.U"]) exVSt "T" = .ok ("U", "") ∧
-    findAlias (exEnv ["y.b.U", "x.a.T"]) exVSt "T" = .ok ("T", "") := by
+    findAlias (exEnv ["y.b.U", "x.a.T"]) exVSt "T" = .ok ("U", "") := by
   decide +kernel
+
+example : FindAliasNoHit (exEnv ["x.a.T", "y.b.U"]) exVSt "T" ∧ FindAliasNoHit (exEnv ["y.b.U", "x.a.T"]) exVSt "T" :=
+  ⟨⟨_, rfl, by decide +kernel, by decide +kernel, "x.a.T", by decide +kernel, "y.b.U", by decide +kernel, by decide +kernel⟩,
+   ⟨_, rfl, by decide +kernel, by decide +kernel, "x.a.T", by decide +kernel, "y.b.U", by decide +kernel, by decide +kernel⟩⟩
+
+example : findAlias (exEnv ["x.a.T", "y.b.U"]) exVSt "T" = findAlias (exEnv ["y.b.U", "x.a.T"]) exVSt "T" :=
+  findAlias_perm_all _ _ exVSt "T" (List.Forall₂.cons ⟨rfl, List.Perm.swap _ _ _⟩ List.Forall₂.nil)
+
+/-- the special case of a single candidate: returned as it is, whether or not it matches -/
+example : findAlias (exEnv ["x.a.T"]) exVSt "T" = .ok ("T", "x.a.T") := by decide +kernel
 
 def exTupInt : Expr := .tuple [.int 1, .int 2]
 def exTupStr : Expr := .tuple [.str "a", .str "b"]
@@ -403,8 +479,9 @@ def inferIs (r : Except PyErr (Option AType)) (expected : List AType) : Bool :=
 def exTInt : AType := .tuple [.named "int" "builtins.int", .named "int" "builtins.int"]
 def exTStr : AType := .tuple [.named "str" "builtins.str", .named "str" "builtins.str"]
 
-/-- (ii) two tuples of the same length: the model's "set order" is the order of first occurrence,
-    and it survives the sort -/
+/-- (ii) order = source order: two tuples of the same length keep the order of their `return`
+    statements (the sort is stable); swapping the statements in the SOURCE swaps the members — a
+    different input, not a non-determinism -/
 example :
     inferIs (inferFromReturns [.ret (some exTupInt), .ret (some exTupStr)]) [exTInt, exTStr] = true ∧
     inferIs (inferFromReturns [.ret (some exTupStr), .ret (some exTupInt)]) [exTStr, exTInt] = true ∧
@@ -413,6 +490,26 @@ example :
 
 example : InferTie [exTInt, exTStr] :=
   ⟨_, List.mem_cons_self, _, List.mem_cons_of_mem _ List.mem_cons_self, by decide +kernel, by decide +kernel⟩
+
+def exFn (id name : String) : Node := .fn { id := id, name := name, isPublic := true }
+
+/-- re-exported elements: same name from two modules — the id decides, whatever the queue order;
+    the raw lists differ -/
+example :
+    [exFn "pkg/b/f" "f", exFn "pkg/a/f" "f", exFn "pkg/a/e" "e"].map Node.id ≠
+      [exFn "pkg/a/e" "e", exFn "pkg/a/f" "f", exFn "pkg/b/f" "f"].map Node.id ∧
+    (sortBy nodeLe [exFn "pkg/b/f" "f", exFn "pkg/a/f" "f", exFn "pkg/a/e" "e"]).map Node.id = ["pkg/a/e", "pkg/a/f", "pkg/b/f"] ∧
+    (sortBy nodeLe [exFn "pkg/a/f" "f", exFn "pkg/a/e" "e", exFn "pkg/b/f" "f"]).map Node.id = ["pkg/a/e", "pkg/a/f", "pkg/b/f"] := by
+  decide +kernel
+
+/-- the hypothesis of `reexport_elements_order` is needed: two different nodes with one `(name, id)`
+    keep their queue order (stable sort) -/
+example :
+    let a : Node := .fn { id := "p/f", name := "f", isPublic := true }
+    let b : Node := .fn { id := "p/f", name := "f", isPublic := false }
+    (sortBy nodeLe [a, b]).map (fun n => match n with | .fn f => f.isPublic | _ => false) = [true, false] ∧
+    (sortBy nodeLe [b, a]).map (fun n => match n with | .fn f => f.isPublic | _ => false) = [false, true] := by
+  decide +kernel
 
 /-! ### 9. non-vacuity -/
 
